@@ -21,6 +21,16 @@ package main
 //	                                 the same as without the extra processor — all oracles below apply unchanged, and the
 //	                                 flattened twin (run WITHOUT the extra processor) must end with the same values.
 //
+//	X<k>@<cls>[<order>] <n> node*    (ninth round) the k-th static type is ITSELF a non-lazy user post-processor (it implements
+//	                                 container.ComponentPostProcessor): cls u = not Ordered, o = Ordered with Order() = <order>,
+//	                                 p = Ordered and Priority.  The token is read off the type by the harness (Go's method sets),
+//	                                 like the encoding.  Such a holder is created and populated INSIDE the registration loop of
+//	                                 InvokeBeanFactoryPostProcessors, by the processors registered so far: those sorted ahead of it.
+//	                                 In these runs (and in the run of the plain twin) the recording processor is Ordered with
+//	                                 Order() = scanRecorderOrder: it sorts behind every built-in processor and ahead of the holder.
+//	                                 The observation gets the suffix ` pp rec=<c>`: c = how often the recorder was handed the
+//	                                 holder's properties (the recorder sorted ahead of the holder was in the chain it was populated by).
+//
 // Part A (model comparison).  After the REAL app.Run the component's definition is read from the real
 // definition registry: meta.Fields in scan order (path recovered from the Holder chain by address) and
 // meta.GetAllProperties() (path, tag, property type, parsed value part, arguments), sorted by path+tag:
@@ -44,6 +54,12 @@ package main
 //         by the harness (scanValueAsWritten; texts whose value part holds a bracket are left to (v)) — signature
 //         scan-custom-value.  About two generated shapes in five carry such values (scanBlankPass), as do the static
 //         types ScanStatic21/22 and three corpus shapes; `value:" lit"`-style literals are among the plain forms of (iv).
+//   (viii) processor holders (X<k>@…): the holder and its PLAIN TWIN — a Go-declared type with the same fields in the same
+//         nesting that is no post-processor, started in the same environment — end Run with the same outcome and, unit by
+//         unit, the same values: a recognised tagged exported field, declared directly or inside embedded structs, is
+//         processed the same way whatever else its holder is (signature scan-holder-kind).  The units of the processor
+//         plumbing (an embedded *processors.Default…PostProcessor) exist on the holder only and are left to the frame oracle (ii).
+//         All other oracles apply to the holder unchanged; every failing one is reported (" ;; ").
 // "unit" = a leaf field, or a struct field the scanner does not descend into.
 //
 // Field NAMES may repeat across different holders (sibling mix-ins declaring the same name, diamonds `Left{Base}`
@@ -65,6 +81,7 @@ import (
 	"github.com/go-kid/ioc/app"
 	"github.com/go-kid/ioc/component_definition"
 	"github.com/go-kid/ioc/configure/loader"
+	"github.com/go-kid/ioc/container"
 	"github.com/go-kid/ioc/container/processors"
 	"github.com/go-kid/ioc/definition"
 	"github.com/go-kid/ioc/syslog"
@@ -165,7 +182,11 @@ var (
 // scanPreset: a POINTER field the harness sets to a fresh struct with sentinel content before Run.  A nil pointer to a
 // type whose Prefix() has a VALUE receiver cannot be asked for its prefix (Go panics in the method wrapper, inside a
 // goroutine of the container: the process dies), so `*ScanMark` fields are always pre-set.
-func scanPreset(n *scanNode) bool { return n.isStruct && !n.byVal && (n.ty == "ps" || n.ty == "mk") }
+func scanPreset(n *scanNode) bool {
+	// (ninth round) a pointer to processor plumbing that holds a struct of its own: a method promoted from that inner struct
+	// needs a non-nil pointer (see ScanPPInstPtr)
+	return n.isStruct && !n.byVal && (n.ty == "ps" || n.ty == "mk" || (n.ty == "dp" && len(n.kids) > 0))
+}
 
 // scanMarkFamily: the shape holds a field of the marker family (never true for a shape of the first six rounds)
 func scanMarkFamily(kids []*scanNode) bool {
@@ -222,6 +243,15 @@ func (r *scanRecorder) PostProcessProperties(properties []*component_definition.
 	}
 	return nil, nil
 }
+
+// the ORDERED recorder of processor-holder runs (ninth round): behind every built-in processor (their Orders are 2..16),
+// ahead of a holder that is not Ordered or whose Order() is larger.  Lazy like the plain recorder (the embedded
+// DefaultTagScanDefinitionRegistryPostProcessor is a LazyInitComponent): registered as it is, never created as a component.
+const scanRecorderOrder = 50
+
+type scanRecorderOrd struct{ scanRecorder }
+
+func (r *scanRecorderOrd) Order() int { return scanRecorderOrder }
 
 /* ---------- the extra processor: user code ahead of the recorder whose PostProcessProperties returns a list ---------- */
 
@@ -825,6 +855,11 @@ func scanRun(kids []*scanNode, static any) *scanResult { return scanRunX(kids, s
 
 // scanRunX: extra = "" or <pos><ret> (see the header): the extra processor registered next to the recorder
 func scanRunX(kids []*scanNode, static any, extra string) *scanResult {
+	return scanRunY(kids, static, extra, scanHolderKind(static) != "")
+}
+
+// scanRunY: ordRec = the recorder is the Ordered one (processor-holder runs and the runs of their plain twins)
+func scanRunY(kids []*scanNode, static any, extra string, ordRec bool) *scanResult {
 	res := &scanResult{pre: map[string]string{}, post: map[string]string{}, nprops: map[string]int{}}
 	var root reflect.Value
 	if pan := hx.Guard(func() {
@@ -855,8 +890,13 @@ func scanRunX(kids []*scanNode, static any, extra string) *scanResult {
 	comp := root.Interface()
 	name := framework_helper.GetComponentName(comp)
 	res.rec = newScanRecorder(name, root)
+	var recComp any = res.rec
+	if ordRec {
+		ro := &scanRecorderOrd{scanRecorder: *res.rec}
+		res.rec, recComp = &ro.scanRecorder, ro
+	}
 	a := app.NewApp()
-	comps := []any{comp, pv.a, pv.b, res.rec}
+	comps := []any{comp, pv.a, pv.b, recComp}
 	if extra != "" {
 		var xc any
 		xc, res.extra = newScanExtra(extra, name)
@@ -903,8 +943,34 @@ func scanRunX(kids []*scanNode, static any, extra string) *scanResult {
 	for _, l := range lines {
 		sb.WriteString(" " + l)
 	}
+	if scanHolderKind(static) != "" {
+		fmt.Fprintf(&sb, " pp rec=%d", res.rec.calls)
+	}
 	res.obs = sb.String()
 	return res
+}
+
+// scanHolderKind: "" for a plain holder; for a static type that is itself a post-processor the mode suffix @<cls>[<order>],
+// read off the type's method set (the interfaces SortOrderedComponents and the registration loop ask for)
+func scanHolderKind(static any) string {
+	if static == nil {
+		return ""
+	}
+	var p any
+	if pan := hx.Guard(func() { p = reflect.New(reflect.TypeOf(static)).Interface() }); pan != nil {
+		return ""
+	}
+	if _, ok := p.(container.ComponentPostProcessor); !ok {
+		return ""
+	}
+	if o, ok := p.(definition.Ordered); ok {
+		cls := "o"
+		if _, ok := p.(definition.Priority); ok {
+			cls = "p"
+		}
+		return "@" + cls + strconv.Itoa(o.Order())
+	}
+	return "@u"
 }
 
 // "=" + Prefix() when a zero value of the field type implements ConfigurationProperties (the real interface check)
@@ -1356,6 +1422,45 @@ func scanOracleFlat(r, flat *scanResult) string {
 	return ""
 }
 
+// scanPlumbing: a unit of the processor plumbing — a field whose type is one of package processors' Default… types (ty dp)
+func scanPlumbing(n *scanNode) bool { return n.ty == "dp" }
+
+// oracle (viii), processor holders only: against the plain twin holder of the same shape, unit by unit (by path: the twin
+// declares the same fields in the same nesting, without the plumbing units)
+func scanOracleTwin(r, tw *scanResult) string {
+	if r.outcome != tw.outcome {
+		return fmt.Sprintf("FAIL scan-holder-kind Run ends %s for the holder that is a post-processor, %s for the plain holder of the same shape: %s", r.outcome, tw.outcome, r.detail+tw.detail)
+	}
+	if r.outcome != "ok" {
+		return ""
+	}
+	mine := map[string]scanUnit{}
+	n := 0
+	for _, u := range r.units {
+		if !scanPlumbing(u.n) {
+			mine[u.path] = u
+			n++
+		}
+	}
+	if n != len(tw.units) {
+		return "FAIL scan-holder-kind unit count" // harness sanity: the twin declares the same units
+	}
+	for _, tu := range tw.units {
+		u, ok := mine[tu.path]
+		if !ok || u.n.ty != tu.n.ty || u.n.tagText() != tu.n.tagText() {
+			return "FAIL scan-holder-kind unit " + tu.path // harness sanity
+		}
+		if r.nprops[u.path] > 1 || tw.nprops[tu.path] > 1 {
+			continue // two processors own the field: see scanOracleFlat
+		}
+		if r.post[u.path] != tw.post[tu.path] {
+			return fmt.Sprintf("FAIL scan-holder-kind %s tag=%q: %s on the holder that is a post-processor, %s on the plain holder of the same shape",
+				u.path, u.n.tagText(), r.post[u.path], tw.post[tu.path])
+		}
+	}
+	return ""
+}
+
 // scanConfigPoint: a unit the container may touch — exported, and carrying a recognised tag or being a
 // ConfigurationProperties by its type (the harness' own reading of the property: tag text and Go's method sets)
 func scanConfigPoint(n *scanNode) bool {
@@ -1509,6 +1614,11 @@ func scanLabels(kids []*scanNode, r *scanResult, extra ...string) []string {
 
 // one case: run the arrangement, evaluate the oracles, compare with the flattened run
 func scanCase(mode string, kids []*scanNode, static any, flat *scanResult, labels []string, w *hx.Writer) *scanResult {
+	return scanCaseT(mode, kids, static, flat, nil, labels, w)
+}
+
+// scanCaseT: twin = the run of the plain twin holder (processor holders only, else nil)
+func scanCaseT(mode string, kids []*scanNode, static any, flat, twin *scanResult, labels []string, w *hx.Writer) *scanResult {
 	extra := ""
 	if i := strings.IndexByte(mode, '+'); i >= 0 {
 		extra = mode[i+1:]
@@ -1523,6 +1633,15 @@ func scanCase(mode string, kids []*scanNode, static any, flat *scanResult, label
 	}
 	if c.Oracle == "" && scanMarkFamily(kids) {
 		c.Oracle = scanOracleStart(r, kids, extra)
+	}
+	if twin != nil {
+		// both verdicts are reported: the twin comparison (viii) and the first failing one of the oracles above
+		if o := scanOracleTwin(r, twin); o != "" {
+			if c.Oracle != "" {
+				o += " ;; " + c.Oracle
+			}
+			c.Oracle = o
+		}
 	}
 	c.Tags = scanLabels(kids, r, labels...)
 	w.Put(c)
@@ -1910,7 +2029,170 @@ type ScanStatic27 struct {
 	W     string `value:"${s.k1}"`
 }
 
-var scanStaticFlat = map[int]any{23: ScanStatic23Flat{}, 25: ScanStatic25Flat{}, 21: ScanStatic21Flat{},0: ScanStatic0Flat{}, 4: ScanStatic4Flat{}, 5: ScanStatic5Flat{},
+/* ---------- holders that are themselves post-processors (ninth round) ---------- */
+
+// A component may itself be a user-supplied, non-lazy post-processor (typically the processor of a custom tag) and carry
+// recognised tags of its own like any component.  Such a holder is created and populated inside the registration loop of
+// InvokeBeanFactoryPostProcessors by the processors registered so far.  The holders below are not Ordered, or Ordered behind
+// the built-in processors: every built-in processor (and the ordered recorder) is registered when they are populated, so
+// their tagged fields — declared directly, and one / two / three embedded levels down — must end with what the PLAIN twin
+// of the same shape ends with (oracle (viii)).  How the holder becomes a processor:
+//
+//	ScanPPPtr      embeds *processors.DefaultComponentPostProcessor BY POINTER (left nil: its methods never touch the receiver):
+//	               an embedded pointer is a field of its own (unit `DefaultComponentPostProcessor`, ty dp), not descended into
+//	ScanPPMeth     explicit methods, no plumbing field at all; Order() = 100
+//	ScanPPVal      embeds processors.DefaultInstantiationAwareComponentPostProcessor BY VALUE, the way users write it: an
+//	               untagged anonymous by-value struct, so the scanner DESCENDS into it (and into the DefaultComponentPostProcessor
+//	               inside it) and finds no field there — the shape has two more empty embedded levels, no unit more;
+//	               an ACTIVE processor (PostProcessAfterInstantiation answers true), Order() = MaxInt
+//	ScanPPInstPtr  embeds *processors.DefaultInstantiationAwareComponentPostProcessor by pointer (pre-set by the harness: a
+//	               promoted method of the struct inside it needs a non-nil pointer); tagged fields in embedded structs only
+//	ScanPPFlatProc explicit methods, every field declared directly; Order() = 51 (right behind the recorder)
+//
+// (A priority-ordered holder, or one Ordered ahead of a built-in processor, is populated without the processors sorted behind
+// it on the unchanged library — outside what these shapes test; a LazyInit processor is never populated at all.)
+const scanProcessorsPkg = "github.com/go-kid/ioc/container/processors"
+
+type ScanPPLeafs struct {
+	Factor int    `value:"42"`
+	Name   string `prop:"s.k1"`
+	hidden int    `value:"42"`
+	Note   string
+	Lg     syslog.Logger `logger:""`
+}
+type ScanPPMid struct {
+	ScanPPLeafs
+	Dep  *ScanProvA `wire:""`
+	Fn   ScanIface  `func:"Ping"`
+	Mine string     `mytag:"v,a=b c"`
+	Fo   string     `json:"x"`
+}
+type ScanPPOuter struct {
+	Count int `prop:"i.j"`
+	ScanPPMid
+	Flag bool `value:"${b.k}"`
+}
+
+// the plain holder: tagged fields two levels down, one level down and directly
+type ScanPPTop struct {
+	ScanPPMid
+	Offset int        `value:"${i.k}"`
+	Helper *ScanProvB `wire:""`
+	Grp    ScanGrp    `prefix:"grp"`
+	Own    string     `mytag:" w "`
+	Pfx    string     `prefix:"s.k2"`
+	plain  bool
+}
+
+// the same fields, all declared directly (plain)
+type ScanPPFlat struct {
+	Factor int    `value:"42"`
+	Name   string `prop:"s.k1"`
+	hidden int    `value:"42"`
+	Note   string
+	Lg     syslog.Logger `logger:""`
+	Dep    *ScanProvA    `wire:""`
+	Fn     ScanIface     `func:"Ping"`
+	Mine   string        `mytag:"v,a=b c"`
+	Fo     string        `json:"x"`
+	Offset int           `value:"${i.k}"`
+	Helper *ScanProvB    `wire:""`
+	Grp    ScanGrp       `prefix:"grp"`
+	Own    string        `mytag:" w "`
+	Pfx    string        `prefix:"s.k2"`
+	plain  bool
+}
+
+type ScanPPPtr struct {
+	*processors.DefaultComponentPostProcessor
+	ScanPPMid
+	Offset int        `value:"${i.k}"`
+	Helper *ScanProvB `wire:""`
+	Grp    ScanGrp    `prefix:"grp"`
+	Own    string     `mytag:" w "`
+	Pfx    string     `prefix:"s.k2"`
+	plain  bool
+}
+
+type ScanPPMeth struct {
+	ScanPPMid
+	Offset int        `value:"${i.k}"`
+	Helper *ScanProvB `wire:""`
+	Grp    ScanGrp    `prefix:"grp"`
+	Own    string     `mytag:" w "`
+	Pfx    string     `prefix:"s.k2"`
+	plain  bool
+}
+
+func (*ScanPPMeth) PostProcessBeforeInitialization(c any, _ string) (any, error) { return c, nil }
+func (*ScanPPMeth) PostProcessAfterInitialization(c any, _ string) (any, error)  { return c, nil }
+func (*ScanPPMeth) Order() int                                                    { return 100 }
+
+type ScanPPFlatProc struct {
+	Factor int    `value:"42"`
+	Name   string `prop:"s.k1"`
+	hidden int    `value:"42"`
+	Note   string
+	Lg     syslog.Logger `logger:""`
+	Dep    *ScanProvA    `wire:""`
+	Fn     ScanIface     `func:"Ping"`
+	Mine   string        `mytag:"v,a=b c"`
+	Fo     string        `json:"x"`
+	Offset int           `value:"${i.k}"`
+	Helper *ScanProvB    `wire:""`
+	Grp    ScanGrp       `prefix:"grp"`
+	Own    string        `mytag:" w "`
+	Pfx    string        `prefix:"s.k2"`
+	plain  bool
+}
+
+func (*ScanPPFlatProc) PostProcessBeforeInitialization(c any, _ string) (any, error) { return c, nil }
+func (*ScanPPFlatProc) PostProcessAfterInitialization(c any, _ string) (any, error)  { return c, nil }
+func (*ScanPPFlatProc) Order() int                                                    { return scanRecorderOrder + 1 }
+
+// three levels down, behind a plain member
+type ScanPPValPlain struct {
+	Label string
+	ScanPPOuter
+}
+type ScanPPValFlat struct {
+	Label  string
+	Count  int    `prop:"i.j"`
+	Factor int    `value:"42"`
+	Name   string `prop:"s.k1"`
+	hidden int    `value:"42"`
+	Note   string
+	Lg     syslog.Logger `logger:""`
+	Dep    *ScanProvA    `wire:""`
+	Fn     ScanIface     `func:"Ping"`
+	Mine   string        `mytag:"v,a=b c"`
+	Fo     string        `json:"x"`
+	Flag   bool          `value:"${b.k}"`
+}
+type ScanPPVal struct {
+	processors.DefaultInstantiationAwareComponentPostProcessor
+	Label string
+	ScanPPOuter
+}
+
+func (*ScanPPVal) Order() int { return math.MaxInt }
+func (*ScanPPVal) PostProcessAfterInstantiation(component any, componentName string) (bool, error) {
+	return true, nil
+}
+func (*ScanPPVal) PostProcessProperties(properties []*component_definition.Property, component any, componentName string) ([]*component_definition.Property, error) {
+	return nil, nil
+}
+
+type ScanPPInstPlain struct{ ScanPPOuter }
+type ScanPPInstPtr struct {
+	*processors.DefaultInstantiationAwareComponentPostProcessor
+	ScanPPOuter
+}
+
+// the plain twin of a holder that is a post-processor: the same fields in the same nesting (without the plumbing)
+var scanHolderTwin = map[int]any{30: ScanPPTop{}, 31: ScanPPTop{}, 32: ScanPPFlat{}, 34: ScanPPValPlain{}, 36: ScanPPInstPlain{}}
+
+var scanStaticFlat = map[int]any{28: ScanPPFlat{}, 31: ScanPPFlat{}, 33: ScanPPValFlat{}, 34: ScanPPValFlat{}, 23: ScanStatic23Flat{}, 25: ScanStatic25Flat{}, 21: ScanStatic21Flat{},0: ScanStatic0Flat{}, 4: ScanStatic4Flat{}, 5: ScanStatic5Flat{},
 	9: ScanHubFlat2{}, 10: ScanHubFlat1{}, 11: ScanHubFlat1{}, 12: ScanHubFlat1{}, 13: ScanHubFlat1{}, 14: ScanHubFlat2{}, 15: ScanHubFlat3{},
 	18: ScanSoloFlat2{}, 19: ScanSoloFlat1{}, 20: ScanSoloFlat1{}}
 
@@ -1920,7 +2202,11 @@ var scanStatics = []any{ScanStatic0{}, ScanStatic1{}, ScanStatic2{}, ScanStatic3
 	/* 16 */ ScanSoloFlat1{}, ScanSoloFlat2{},
 	/* 18 */ ScanSoloFirst{}, ScanSoloSecond{}, ScanSoloDeep{},
 	/* 21 */ ScanStatic21{}, ScanStatic21Flat{},
-	/* 23 */ ScanStatic23{}, ScanStatic23Flat{}, ScanStatic25{}, ScanStatic25Flat{}, ScanStatic27{}}
+	/* 23 */ ScanStatic23{}, ScanStatic23Flat{}, ScanStatic25{}, ScanStatic25Flat{}, ScanStatic27{},
+	/* 28 */ ScanPPTop{}, ScanPPFlat{},
+	/* 30 */ ScanPPPtr{}, ScanPPMeth{}, ScanPPFlatProc{},
+	/* 33 */ ScanPPValPlain{}, ScanPPVal{},
+	/* 35 */ ScanPPInstPlain{}, ScanPPInstPtr{}}
 
 func scanParseTag(tag string) []scanKV {
 	// the conventional format only (static types are hand-written); mirrors reflect.StructTag.Lookup's scanner
@@ -1993,6 +2279,9 @@ func scanNodesOf(t reflect.Type) []*scanNode {
 				if mt == st {
 					n.ty = code
 				}
+			}
+			if st.PkgPath() == scanProcessorsPkg {
+				n.ty = "dp" // processor plumbing: processors.Default…PostProcessor embedded by a holder that is a post-processor
 			}
 			n.kids = scanNodesOf(st)
 		}
@@ -2583,8 +2872,12 @@ func scanGenMarks(rng *hx.Rng, m int, tier string, w *hx.Writer) {
 
 // scanCorpusMarks: the Go-declared holder types of the marker family and two hand-written StructOf shapes
 func scanCorpusMarks(w *hx.Writer) {
-	for k := scanStaticsOld; k < len(scanStatics); k++ {
+	for k := scanStaticsOld; k < scanStaticsMarksEnd; k++ {
 		scanStaticCase(k, scanStatics[k], []string{"corpus", "static", "mark-family"}, w)
+	}
+	// ninth round: holders that are themselves post-processors, their plain twins and flat twins
+	for k := scanStaticsMarksEnd; k < len(scanStatics); k++ {
+		scanStaticCase(k, scanStatics[k], []string{"corpus", "static", "holder-round"}, w)
 	}
 	mark := func(name, ty string, byVal bool, tags ...scanKV) *scanNode {
 		n := &scanNode{name: name, ty: ty, isStruct: true, byVal: byVal, tags: tags}
@@ -2631,11 +2924,28 @@ func scanStaticCase(k int, s any, labels []string, w *hx.Writer) {
 	if tw, ok := scanStaticFlat[k]; ok {
 		flat = scanRun(scanNodesOf(reflect.TypeOf(tw)), tw)
 	}
-	scanCase("X"+strconv.Itoa(k), scanNodesOf(reflect.TypeOf(s)), s, flat, labels, w)
+	hk := scanHolderKind(s)
+	if hk == "" {
+		scanCase("X"+strconv.Itoa(k), scanNodesOf(reflect.TypeOf(s)), s, flat, labels, w)
+		return
+	}
+	// a holder that is itself a post-processor: the twins run with the same (ordered) recorder
+	if tw, ok := scanStaticFlat[k]; ok {
+		flat = scanRunY(scanNodesOf(reflect.TypeOf(tw)), tw, "", true)
+	}
+	var twin *scanResult
+	if tw, ok := scanHolderTwin[k]; ok {
+		twin = scanRunY(scanNodesOf(reflect.TypeOf(tw)), tw, "", true)
+	}
+	labels = append(append([]string{}, labels...), "holder-processor", "holder-processor-"+hk[1:2])
+	scanCaseT("X"+strconv.Itoa(k)+hk, scanNodesOf(reflect.TypeOf(s)), s, flat, twin, labels, w)
 }
 
 // the static types of the first six rounds run first, the later ones at the end of the corpus
 const scanStaticsOld = 23
+
+// … the marker family's end at this index, the processor holders follow
+const scanStaticsMarksEnd = 28
 
 func scanCorpus(w *hx.Writer) {
 	for k, s := range scanStatics[:scanStaticsOld] {
@@ -2714,8 +3024,12 @@ func scanReplay(scn string, w *hx.Writer) {
 		return
 	}
 	if strings.HasPrefix(f[0], "X") {
-		k, err := strconv.Atoi(f[0][1:])
-		if err != nil || k < 0 || k >= len(scanStatics) {
+		num := f[0][1:]
+		if i := strings.IndexByte(num, '@'); i >= 0 {
+			num = num[:i] // X<k>@<cls><order>: the suffix is derived from the type
+		}
+		k, err := strconv.Atoi(num)
+		if err != nil || k < 0 || k >= len(scanStatics) || f[0] != "X"+num+scanHolderKind(scanStatics[k]) {
 			return
 		}
 		scanStaticCase(k, scanStatics[k], []string{"replay"}, w)
